@@ -478,10 +478,10 @@ int main(int argc, char** argv) {
     printf("F rotr %llu %llu = %llu\n", U(p), U(keys[0]), U(mi_rotr(p, keys[0])));
   }
   // F: page-level episodes
-  int nf = thorough ? 240 : 54;
+  int nf = thorough ? 240 : 45;
   for (int ep = 0; ep < nf; ep++) {
     g_stage = "f";
-    f_episode(&g, ep, f_classes[(size_t)ep % NF_CLASSES], 30 + (int)prng_below(&g, thorough ? 120 : 60), ep % 4 != 0);
+    f_episode(&g, ep, f_classes[(size_t)ep % NF_CLASSES], 25 + (int)prng_below(&g, thorough ? 120 : 50), ep % 4 != 0);
   }
   // T: API-level episodes (the consistency-after-error clause only in the secure build)
   int nt = thorough ? 1500 : 240;
